@@ -1,3 +1,4 @@
+from numbers import Integral
 from typing import Optional
 
 from numpy import ndarray
@@ -56,7 +57,7 @@ def glu(x: ArrayLike, axis: int = -1, *, constant: Optional[bool] = None) -> Ten
     if isinstance(axis, (ndarray, Tensor)):
         axis = axis.item()
 
-    if not isinstance(axis, int):
+    if not isinstance(axis, Integral):
         raise TypeError(
             f"`axis` must be an integer-valued scalar, got {axis} (type {type(axis)})"
         )
